@@ -237,10 +237,24 @@ def insertAfterComments (blocks : List Block) (nb : List Block) : List Block :=
     else if k = 0 then nb ++ (.verbatim ss ins :: rest)
     else .verbatim (ss.take k) ins :: (nb ++ (.verbatim (ss.drop k) ins :: rest))
 
+/-- an import block that holds a `__future__` import: nothing may be placed before it -/
+def futureBlockId : Block → Option Nat
+  | .imports id _ _ _ _ set => if set.any isFuture then some id else none
+  | .verbatim _ _ => none
+
+/-- the last block that holds a `__future__` import (only comments, the docstring and other `__future__` imports
+    can precede it in a module that compiles) -/
+def leadingFuture (blocks : List Block) : Option Nat := blocks.reverse.findSome? futureBlockId
+
+/-- `insert_new_import_block`: a leading `__future__` block takes the import itself; otherwise a new empty block
+    (and a separator line) is inserted after the prologue -/
 def insertNewImportBlock (st : St) : St × Nat :=
-  let id := st.nextId
-  ({ st with blocks := insertAfterComments st.blocks [newImportBlock id, sepBlock],
-             order := id :: st.order, nextId := id + 1 }, id)
+  match leadingFuture st.blocks with
+  | some fid => (st, fid)
+  | none =>
+    let id := st.nextId
+    ({ st with blocks := insertAfterComments st.blocks [newImportBlock id, sepBlock],
+               order := id :: st.order, nextId := id + 1 }, id)
 
 def addImport (st : St) (imp : Imp) (maxLine : Option Nat) : Except Err St :=
   let (st1, id) := match selectBlock st imp maxLine with
